@@ -470,3 +470,64 @@ def rule_span_side(ctx, prop):
                                   f"get deleted or duplicated", f.loc(t["sp"]), cfg)
         rep.floor("span-token accesses in the trivia traits", n, 3, cfg)
     return rep
+
+
+def rule_getter_setter_fields(ctx, prop):
+    """the token whose trivia a node's getter reads is the token its setter rewrites (per enum variant)"""
+    import collections
+    from paths import access_path
+    rep = Report(prop, "R-KEEP(e)", "for every node type with both a trivia getter and a trivia setter, and every variant that both "
+                                    "handle through a field of the node itself, getter and setter name the same field")
+    for cfg, prog in ctx.programs.items():
+        def sig(f, side, setter):
+            out = collections.defaultdict(set)
+            pat = re.compile(r"update_%s_trivia$" % side) if setter else re.compile(r"::%s_trivia$" % side)
+            for b, t in f.calls():
+                c = callee(t)
+                if not pat.search(c) or (not setter and "update_" in c.split("::")[-1]) or not t["args"]:
+                    continue
+                try:
+                    root, steps = access_path(f, t["args"][0])
+                except Exception:
+                    continue
+                if root[0] == "call":
+                    rn = callee(f.blocks[root[1]]["term"]).split("::")[-1]
+                elif root[0] == "arg":
+                    rn = "self"
+                else:
+                    continue
+                names = [s_[1] if len(s_) > 1 else "[]" for s_ in steps]
+                vs = [s_[1] for s_ in steps if s_[0] == "v" and s_[1] not in ("Some", "Ok")]
+                if len(vs) == 1 and names and names[-1] not in ("Some",):
+                    fld = names[names.index(vs[0]) + 1:] if vs[0] in names else []
+                    if len(fld) == 1:
+                        out[(rn, vs[0])].add(fld[0])
+            return out
+        types = collections.defaultdict(dict)
+        for f in prog.fns("stylua_lib"):
+            if f.kind == "Closure":
+                continue
+            m = re.match(r"^<(.+) as formatters::trivia(_util)?::(Get|Update)(Leading|Trailing)Trivia>::(update_)?(leading|trailing)_trivia$", f.path)
+            if m:
+                types[(m.group(1), m.group(4).lower())][m.group(3)] = (f, sig(f, m.group(4).lower(), m.group(3) == "Update"))
+        n = 0
+        for (ty, side), d in sorted(types.items()):
+            if "Get" not in d or "Update" not in d:
+                continue
+            gf, g = d["Get"]
+            sf, s_ = d["Update"]
+            for key in sorted(set(g) & set(s_)):
+                n += 1
+                ok = g[key] == s_[key]
+                rep.inst(f"{ty.split('::')[-1]}::{key[1]} {side} trivia: getter and setter use {sorted(g[key])}", None, cfg, ok=ok)
+                if not ok:
+                    rep.violation(f"{sf.key} getter-setter-field {key[1]} get={','.join(sorted(g[key]))} set={','.join(sorted(s_[key]))}",
+                                  f"for {ty}::{key[1]} the {side}-trivia getter reads `{sorted(g[key])}` but the setter rewrites "
+                                  f"`{sorted(s_[key])}`: code that moves comments (read them, re-emit them elsewhere, then clear them with "
+                                  f"Replace) clears the wrong token - the comments are printed twice, or the other token's are lost",
+                                  sf.loc(), cfg)
+        if "luau" in cfg or cfg in ("release", "all"):
+            rep.floor("variant fields compared between trivia getters and setters", n, 10, cfg)
+        else:
+            rep.floor("variant fields compared between trivia getters and setters", n, 5, cfg)
+    return rep
